@@ -44,7 +44,7 @@ PROPS = {
     "C02": dict(VS),
     "C04": dict(VS),
     "C07": dict(VS, extra_engines=[{"engine": "wirespace", "needs": ["hz", "enum", "wirespace"]}]),
-    "C10": dict(VS),
+    "C10": dict(VS, gen={"quick": ["mx", "mxr"], "thorough": ["mx", "mxall", "mxr"]}),
     "C15": dict(SM),
     "C16": dict(SM),
     "C17": dict(SM),
